@@ -13,7 +13,16 @@ ENGINES = [
 ]
 
 # property -> dict(engine, category, text, note, technique, design_ref)
+B_NOTE = ('bounded in the structural parameters stated in the evidence (bit length l, security parameter k, parties/threshold (m,t), list length); '
+          'complete over values and callee-permitted randomness inside each instance; contract stubs of callees are assumptions discharged by their own obligations; '
+          'one schedule per m-party run')
 CHECKS = {
+    'C01': dict(engine='symx', category='other', design_ref='DESIGN.md §5 C01',
+                text='bounded contract verification: each secure-integer function of runtime.py is run for real on symbolic l-bit inputs and symbolic '
+                     'randomness (value mode, z3) against Python int semantics, with a ghost sharing degree; share-moving primitives are run by all m '
+                     'parties at once on symbolic shares (degree-t sharing decided exactly on polynomial normal forms) and all operations again in '
+                     'concrete m-party runs with ghost checks at every output/_reshare',
+                note=B_NOTE + '; _is_zero (Monte-Carlo test) and secure gcd family only in concrete runs', technique='modular symbolic execution of the real functions against contracts (bounded), z3'),
     'C25': dict(engine='pyvc+native-enum', category='other', design_ref='DESIGN.md §5 C25',
                 text='contract verification of the gmpy stubs: invert proved for all integers by engine A (inverse, range, raises exactly when '
                      'gcd != 1); every helper has its executable contract evaluated on the real function over a stated finite domain (bounded)',
